@@ -66,11 +66,14 @@ func (mbp *multipartBodyProcessor) ProcessRequest(reader io.Reader, v plugintype
 					v.MultipartStrictError().(*collections.Single).Set("1")
 					return err
 				}
-				defer temp.Close()
 				// Register the file before filling it: Close() removes what is listed
 				// here, also when the copy below fails half way.
 				filesTmpNamesCol.Add("", temp.Name())
 				sz, err := io.Copy(temp, p)
+				// A failing close can mean that the data never reached the file: report it like a failing write.
+				if cerr := temp.Close(); cerr != nil && (err == nil || errors.Is(err, io.ErrUnexpectedEOF)) {
+					err = cerr
+				}
 				if err != nil {
 					if !errors.Is(err, io.ErrUnexpectedEOF) {
 						v.MultipartStrictError().(*collections.Single).Set("1")
